@@ -33,7 +33,8 @@ def parts(tier):
             Part("near_tangent", strategy=_near_tangent(), examples=300 if q else 6000, timeout=300),
             Part("tiny_steps", strategy=_tiny_steps(), examples=150 if q else 3000, timeout=300),
             Part("junction", strategy=_junction(), examples=300 if q else 6000, timeout=300),
-            Part("multi_crossing", strategy=_multi_crossing(), examples=300 if q else 6000, timeout=300)]
+            Part("multi_crossing", strategy=_multi_crossing(), examples=300 if q else 6000, timeout=300),
+            Part("after_terminal", strategy=_after_terminal(), examples=300 if q else 6000, timeout=300)]
 
 
 @st.composite
@@ -92,6 +93,34 @@ def _tiny_steps(draw):
         evs.append(p)
     return dict(part="tiny_steps", method=method, dtype="float64", prob=dict(kind="const", y0=[0.25, -1.0], v=[1.0, 0.5]), t0=t0, tf=tf, dt=h,
                 rtol=1e-6, atol=1e-6, dense=draw(st.booleans()), events=evs)
+
+
+@st.composite
+def _after_terminal(draw):
+    """a call stopped by a terminal time event at tc, then a second call from there that monitors another event whose crossing
+    lies a hair (1e-13 .. 1e-6) beyond tc: its sign change sits inside the first step of the resumed call and must be reported
+    there, whatever the first call did with that neighbourhood"""
+    method = draw(st.sampled_from(["RK4Solver", "EulerSolver", "RK5Solver", "SymplecticEulerSolver", "RK45CKSolver", "RK8713MSolver", "ImplicitMidpoint", "BABs9o7HSolver"]))
+    fam = M.family(M.get(method))
+    t0 = draw(st.sampled_from([0.0, 1.0, -3.0, 16.0]))
+    h = draw(st.sampled_from([1 / 16.0, 1 / 4.0, 1.0]))
+    N = draw(st.integers(3, 6))
+    sgn = draw(st.sampled_from([1.0, 1.0, -1.0]))
+    tf = t0 + sgn * N * h
+    k = draw(st.integers(0, N - 2))
+    frac = draw(st.sampled_from([0.0, 0.25, 0.5, 0.8125]))
+    if k == 0 and frac == 0.0:
+        frac = 0.5
+    tc = t0 + sgn * (k + frac) * h
+    delta = draw(st.sampled_from([1e-13, 1e-12, 3e-11, 1e-9, 1e-6])) * max(1.0, abs(tc))
+    s1 = draw(st.sampled_from([1.0, -1.0]))
+    s2 = draw(st.sampled_from([1.0, -1.0, 1e3]))
+    along = 1 if s2 * sgn > 0 else -1            # direction of ev2's crossing along the direction of integration
+    evs = [dict(h="time", s=s1, c=tc, direction=0, terminal=True, ret=draw(st.sampled_from(["0d", "arr1"]))),
+           dict(h="time", s=s2, c=tc + sgn * delta, direction=draw(st.sampled_from([0, along])), terminal=False, ret=draw(st.sampled_from(["0d", "float"])))]
+    prob = dict(kind="rot", y0=[1.0, 0.0], w=0.5) if fam == "splitting" else dict(kind="const", y0=[0.25, -1.0], v=[1.0, 0.5])
+    return dict(part="after_terminal", method=method, dtype="float64", prob=prob, t0=t0, tf=tf, dt=h * draw(st.sampled_from([1.0, -1.0])),
+                rtol=1e-6, atol=1e-6, dense=draw(st.booleans()), events=evs, pre_targets=[tf], call_events=[draw(st.sampled_from([[0, 1], [0]])), [1]], judge_events=[1])
 
 
 @st.composite
@@ -173,6 +202,8 @@ def check(case):
     for rec in a.events:
         records.setdefault(id(rec.event), []).append(float(rec.t))
     for j, ev in enumerate(r.evs):
+        if case.get("judge_events") is not None and j not in case["judge_events"]:
+            continue
         g = evrun.g_on_samples(ev, r.P, t, y)
         recs = records.get(id(ev), [])
         for k in range(len(t) - 1):
@@ -194,4 +225,6 @@ def check(case):
     nontrivial = bool(changes and (any(abs(e.s) != 1 for e in r.evs) or backward or not case["dense"] or len(r.evs) >= 2))
     if changes:
         labels.append("has_sign_change")
+    if case["part"] == "after_terminal":
+        labels.append("first_call_stopped_by_terminal_event" if len(getattr(r, "calls_end", [])) and r.calls_end[0] < len(t) else "first_call_not_stopped")
     return viols, dict(nontrivial=nontrivial, labels=labels, counts=dict(strict_sign_changes=changes, recorded_events=len(a.events)))
